@@ -13,22 +13,35 @@ structure CleanFile (d c : Char) (comments : List Char) (header body : List Stri
   body_data : ∀ s ∈ body, comments.any (fun c => s.toList.head? = some c) = false
   no_tail : ∀ s ∈ body, cutComment c s = s
   stripped : ∀ s ∈ body, stripSp s = s ∧ s ≠ ""
+  notblank : ∀ s ∈ body, strip s ≠ ""
   fields : ∀ s ∈ body, (splitAt d s).map strip = splitAt d s
 
-theorem genRows_clean (d c : Char) (comments : List Char) (header body : List String)
-    (h : CleanFile d c comments header body) :
-    genRows d c comments (header ++ body) = body.map (splitAt d) := by
-  unfold genRows
+theorem dataLines_clean (comments : List Char) (header body : List String)
+    (hh : ∀ s ∈ header, comments.any (fun c => s.toList.head? = some c) = true)
+    (hb : ∀ s ∈ body, comments.any (fun c => s.toList.head? = some c) = false) :
+    dataLines comments (header ++ body) = body := by
+  unfold dataLines
   simp only [List.filter_append]
   have h1 : header.filter (fun row => !comments.any (fun c => decide (row.toList.head? = some c))) = [] := by
     rw [List.filter_eq_nil_iff]
     intro s hs
-    simp [h.header_comment s hs]
+    simp [hh s hs]
   have h2 : body.filter (fun row => !comments.any (fun c => decide (row.toList.head? = some c))) = body := by
     rw [List.filter_eq_self]
     intro s hs
-    simp [h.body_data s hs]
+    simp [hb s hs]
   rw [h1, h2, List.nil_append]
+
+theorem notblank_filter (body : List String) (h : ∀ s ∈ body, strip s ≠ "") :
+    body.filter (fun row => decide (strip row ≠ "")) = body := by
+  rw [List.filter_eq_self]
+  intro s hs
+  simp [h s hs]
+
+theorem genRows_clean (d c : Char) (comments : List Char) (header body : List String)
+    (h : CleanFile d c comments header body) :
+    genRows d c body = body.map (splitAt d) := by
+  unfold genRows
   have h3 : body.map (cutComment c) = body := by
     conv => rhs; rw [← List.map_id body]
     exact List.map_congr_left (fun s hs => h.no_tail s hs)
@@ -78,6 +91,7 @@ theorem scanFold_header (delims comments : List Char) (nScan : Nat) (header : Li
 
 theorem scanFold_body (delims comments : List Char) (nScan : Nat) (body : List String) (st : ScanState)
     (hb : ∀ s ∈ body, isCommentLine comments s = false)
+    (hnb : ∀ s ∈ body, strip s ≠ "")
     (hn : st.rows.length + body.length ≤ nScan) :
     body.foldl (scanStep delims comments nScan) st
       = { st with rows := (body.map rstrip).reverse ++ st.rows,
@@ -93,23 +107,26 @@ theorem scanFold_body (delims comments : List Char) (nScan : Nat) (body : List S
         = { st with rows := rstrip row :: st.rows, counts := delims.map (fun d => countChar d row) :: st.counts } := by
       unfold scanStep
       have h0 : ¬ (st.rows.length = nScan ∧ 0 < nScan) := by omega
-      simp only [h0, if_false, hc, Bool.false_eq_true]
+      have h1 : ¬ strip row = "" := hnb row (by simp)
+      simp only [h0, if_false, hc, Bool.false_eq_true, h1]
     rw [hstep]
     rw [ih { st with rows := rstrip row :: st.rows, counts := delims.map (fun d => countChar d row) :: st.counts }
-      (fun s hs => hb s (List.mem_cons_of_mem _ hs)) (by simp only [List.length_cons]; omega)]
+      (fun s hs => hb s (List.mem_cons_of_mem _ hs)) (fun s hs => hnb s (List.mem_cons_of_mem _ hs))
+      (by simp only [List.length_cons]; omega)]
     simp [List.reverse_cons, List.append_assoc]
 
 /-- the state of the scan after a file made of comment lines followed by at most `n_scan` data rows -/
 theorem scanFold_clean (delims comments : List Char) (nScan : Nat) (header body : List String)
     (hh : ∀ s ∈ header, isCommentLine comments s = true)
     (hb : ∀ s ∈ body, isCommentLine comments s = false)
+    (hnb : ∀ s ∈ body, strip s ≠ "")
     (hn : body.length ≤ nScan) :
     scanFold (header ++ body) delims comments nScan
       = ⟨header.length, lastComment (comments.headD '#') header, (body.map rstrip).reverse,
          (body.map fun row => delims.map (fun d => countChar d row)).reverse⟩ := by
   unfold scanFold
   rw [List.foldl_append, scanFold_header delims comments nScan header _ rfl hh,
-      scanFold_body delims comments nScan body _ hb (by simpa using hn)]
+      scanFold_body delims comments nScan body _ hb hnb (by simpa using hn)]
   simp
 
 /-- once `n_scan` rows are collected the loop has left (`break`): the remaining lines change nothing -/
@@ -128,20 +145,22 @@ theorem scanFold_frozen (delims comments : List Char) (nScan : Nat) (l : List St
 /-- the state of the scan after comment lines followed by any number of data rows: only the first `n_scan` count -/
 theorem scanFold_clean_any (delims comments : List Char) (nScan : Nat) (hpos : 0 < nScan) (header body : List String)
     (hh : ∀ s ∈ header, isCommentLine comments s = true)
-    (hb : ∀ s ∈ body, isCommentLine comments s = false) :
+    (hb : ∀ s ∈ body, isCommentLine comments s = false)
+    (hnb : ∀ s ∈ body, strip s ≠ "") :
     scanFold (header ++ body) delims comments nScan
       = ⟨header.length, lastComment (comments.headD '#') header, ((body.take nScan).map rstrip).reverse,
          ((body.take nScan).map fun row => delims.map (fun d => countChar d row)).reverse⟩ := by
   by_cases hle : body.length ≤ nScan
   · rw [List.take_of_length_le hle]
-    exact scanFold_clean delims comments nScan header body hh hb hle
+    exact scanFold_clean delims comments nScan header body hh hb hnb hle
   · have hlt : nScan < body.length := by omega
     have hsplit : header ++ body = (header ++ body.take nScan) ++ body.drop nScan := by
       rw [List.append_assoc, List.take_append_drop]
     unfold scanFold
     rw [hsplit, List.foldl_append]
     have h1 := scanFold_clean delims comments nScan header (body.take nScan) hh
-      (fun s hs => hb s (List.mem_of_mem_take hs)) (by simp [List.length_take]; omega)
+      (fun s hs => hb s (List.mem_of_mem_take hs)) (fun s hs => hnb s (List.mem_of_mem_take hs))
+      (by simp [List.length_take]; omega)
     unfold scanFold at h1
     rw [h1]
     apply scanFold_frozen
@@ -151,7 +170,8 @@ theorem scanFold_clean_any (delims comments : List Char) (nScan : Nat) (hpos : 0
 theorem scanHeader_clean_any (delims comments : List Char) (nScan : Nat) (hpos : 0 < nScan)
     (header body : List String)
     (hh : ∀ s ∈ header, isCommentLine comments s = true)
-    (hb : ∀ s ∈ body, isCommentLine comments s = false) :
+    (hb : ∀ s ∈ body, isCommentLine comments s = false)
+    (hnb : ∀ s ∈ body, strip s ≠ "") :
     (scanHeader (header ++ body) delims comments nScan).headerLength = header.length ∧
     (scanHeader (header ++ body) delims comments nScan).comment = lastComment (comments.headD '#') header ∧
     (scanHeader (header ++ body) delims comments nScan).delimiter
@@ -160,12 +180,13 @@ theorem scanHeader_clean_any (delims comments : List Char) (nScan : Nat) (hpos :
     (scanHeader (header ++ body) delims comments nScan).layout
       = layoutOf (scanHeader (header ++ body) delims comments nScan).delimiter ((body.take nScan).map rstrip) := by
   unfold scanHeader
-  rw [scanFold_clean_any delims comments nScan hpos header body hh hb]
+  rw [scanFold_clean_any delims comments nScan hpos header body hh hb hnb]
   simp
 
 theorem scanHeader_clean (delims comments : List Char) (nScan : Nat) (header body : List String)
     (hh : ∀ s ∈ header, isCommentLine comments s = true)
     (hb : ∀ s ∈ body, isCommentLine comments s = false)
+    (hnb : ∀ s ∈ body, strip s ≠ "")
     (hn : body.length ≤ nScan) :
     (scanHeader (header ++ body) delims comments nScan).headerLength = header.length ∧
     (scanHeader (header ++ body) delims comments nScan).comment = lastComment (comments.headD '#') header ∧
@@ -174,7 +195,7 @@ theorem scanHeader_clean (delims comments : List Char) (nScan : Nat) (header bod
     (scanHeader (header ++ body) delims comments nScan).layout
       = layoutOf (scanHeader (header ++ body) delims comments nScan).delimiter (body.map rstrip) := by
   unfold scanHeader
-  rw [scanFold_clean delims comments nScan header body hh hb hn]
+  rw [scanFold_clean delims comments nScan header body hh hb hnb hn]
   simp
 
 theorem chooseDelimiter_single (counts : List (List Nat)) : chooseDelimiter 1 counts = 0 := by
@@ -429,7 +450,6 @@ theorem fromCsv_clean (symW : Flags → Bool) (num : String → Option Rat) (hea
     (a : CsvArgs) (f : Flags) (d c : Char)
     (hd : csvDelimiter (header ++ body) a = d) (hc : (csvScan (header ++ body) a).comment = c)
     (hlayout : a.layout.getD (csvScan (header ++ body) a).layout = .edgeList)
-    (hlen : (csvScan (header ++ body) a).headerLength = header.length)
     (hclean : CleanFile d c a.comments header body)
     (hne : body ≠ [])
     (hshape : (∀ s ∈ body, (splitAt d s).length = 2) ∨ (∀ s ∈ body, (splitAt d s).length = 3))
@@ -438,10 +458,10 @@ theorem fromCsv_clean (symW : Flags → Bool) (num : String → Option Rat) (hea
     fromCsvWith symW num (header ++ body) a f
       = fromEdgeListWith symW (intOfNum num) (tuplesOf num (body.map (splitAt d))) f := by
   unfold fromCsvWith
-  simp only [hlayout, hd, hc, hlen]
-  rw [genRows_clean d c a.comments header body hclean]
-  have hdrop : List.drop header.length (header ++ body) = body := by simp
-  rw [hdrop]
+  simp only [hlayout, hd, hc]
+  rw [dataLines_clean a.comments header body hclean.header_comment hclean.body_data,
+      notblank_filter body hclean.notblank, genRows_clean d c a.comments header body hclean]
+  unfold csvRows
   -- the rows
   have hR2 : ∀ r ∈ body.map (splitAt d), 2 ≤ r.length := by
     intro r hr
@@ -483,7 +503,13 @@ theorem fromCsv_clean (symW : Flags → Bool) (num : String → Option Rat) (hea
       simp only [hnum, Bool.not_true, Bool.false_eq_true, if_false]
       have h0 := hR2 (splitAt d s0) (by rw [hR]; simp)
       have hlt : ¬ (splitAt d s0).length < 2 := by omega
-      simp only [hlt, if_false]
+      rcases Bool.eq_false_or_eq_true ((body.map (splitAt d)).any fun r =>
+          (r.take 2).any fun s => decide (2 ^ 53 ≤ ((num s).getD 0).num.natAbs / ((num s).getD 0).den)) with hbig | hbig
+      · -- an identifier beyond 2^53: the fast path gives up and the rows are read as strings
+        simp only [hbig, if_true]
+        rw [hany2]
+        simp
+      simp only [hbig, Bool.false_eq_true, if_false, hlt]
       -- facts about the rows
       have hfield : ∀ r ∈ body.map (splitAt d), ∀ x ∈ r, strip x = x ∧ (num x).isSome := by
         intro r hr x hx
@@ -613,7 +639,7 @@ theorem fromCsv_given (symW : Flags → Bool) (num : String → Option Rat) (hea
   have hsc : csvScan (header ++ body) a = scanHeader (header ++ body) [d] a.comments := by
     unfold csvScan; rw [hgiven]
   obtain ⟨h1, h2, h3, h4⟩ := scanHeader_clean_any [d] a.comments 100 (by omega) header body hh
-    (fun s hs => hclean.body_data s hs)
+    (fun s hs => hclean.body_data s hs) (fun s hs => hclean.notblank s hs)
   have htake_ne : body.take 100 ≠ [] := by
     cases body with
     | nil => exact absurd rfl hne
@@ -634,10 +660,12 @@ theorem fromCsv_given (symW : Flags → Bool) (num : String → Option Rat) (hea
         · exact Or.inl (fun s hs => h' s (htake s hs))
         · exact Or.inr (fun s hs => h' s (htake s hs)))
     · rw [h]; rfl
-  exact fromCsv_clean symW num header body a f d _ hd (by rw [hsc, h2]) hlayout (by rw [hsc, h1]) hclean hne hshape hint
+  exact fromCsv_clean symW num header body a f d _ hd (by rw [hsc, h2]) hlayout hclean hne hshape hint
 
 /-- `from_csv` with the delimiter inferred: one of the candidates `\t , ; space` occurs the same positive
-    number of times in every row and the others do not occur. -/
+    number of times in every row and is the only candidate that does so on the scanned rows (the other
+    candidates may occur, e.g. a blank inside a name: `not_consistent_of_absent` discharges the hypothesis
+    when they do not occur at all). -/
 theorem fromCsv_inferred (symW : Flags → Bool) (num : String → Option Rat) (header body : List String)
     (a : CsvArgs) (f : Flags) (k : Nat) (hk : k < 4)
     (hgiven : csvGiven a = none)
@@ -649,7 +677,8 @@ theorem fromCsv_inferred (symW : Flags → Bool) (num : String → Option Rat) (
     (hne : body ≠ [])
     (hshape : (∀ s ∈ body, (splitAt (['\t', ',', ';', ' '].getD k ' ') s).length = 2) ∨
               (∀ s ∈ body, (splitAt (['\t', ',', ';', ' '].getD k ' ') s).length = 3))
-    (hothers : ∀ j, j < 4 → j ≠ k → ∀ row ∈ body, countChar (['\t', ',', ';', ' '].getD j ' ') row = 0)
+    (hunique : ∀ j, j < 4 → j ≠ k → consistentCol
+      ((body.take 100).map fun row => ['\t', ',', ';', ' '].map (fun d => countChar d row)) j = false)
     (hint : ∀ s ∈ body, ∀ r,
       (num ((splitAt (['\t', ',', ';', ' '].getD k ' ') s).getD 0 "") = some r → r.den = 1) ∧
       (num ((splitAt (['\t', ',', ';', ' '].getD k ' ') s).getD 1 "") = some r → r.den = 1)) :
@@ -659,7 +688,7 @@ theorem fromCsv_inferred (symW : Flags → Bool) (num : String → Option Rat) (
   have hsc : csvScan (header ++ body) a = scanHeader (header ++ body) ['\t', ',', ';', ' '] a.comments := by
     unfold csvScan; rw [hgiven]
   obtain ⟨h1, h2, h3, h4⟩ := scanHeader_clean_any ['\t', ',', ';', ' '] a.comments 100 (by omega) header body hh
-    (fun s hs => hclean.body_data s hs)
+    (fun s hs => hclean.body_data s hs) (fun s hs => hclean.notblank s hs)
   have htake_ne : body.take 100 ≠ [] := by
     cases body with
     | nil => exact absurd rfl hne
@@ -675,8 +704,7 @@ theorem fromCsv_inferred (symW : Flags → Bool) (num : String → Option Rat) (
     chooseDelimiter_unique 4 _ k hk
       (consistent_of_equal_counts ['\t', ',', ';', ' '] (body.take 100) k hk c hc htake_ne
         (fun row hrow => hcall row (htake row hrow)))
-      (fun j hj hjk => not_consistent_of_absent ['\t', ',', ';', ' '] (body.take 100) j hj
-        (fun row hrow => hothers j hj hjk row (htake row hrow)))
+      hunique
   have hdel : (scanHeader (header ++ body) ['\t', ',', ';', ' '] a.comments).delimiter
       = ['\t', ',', ';', ' '].getD k ' ' := by
     rw [h3]
@@ -692,6 +720,6 @@ theorem fromCsv_inferred (symW : Flags → Bool) (num : String → Option Rat) (
         · exact Or.inl (fun s hs => h' s (htake s hs))
         · exact Or.inr (fun s hs => h' s (htake s hs)))
     · rw [h]; rfl
-  exact fromCsv_clean symW num header body a f _ _ hd (by rw [hsc, h2]) hlayout (by rw [hsc, h1]) hclean hne hshape hint
+  exact fromCsv_clean symW num header body a f _ _ hd (by rw [hsc, h2]) hlayout hclean hne hshape hint
 
 end SkNet.Ingest
